@@ -1,11 +1,9 @@
 // Package cx holds what the cache properties (C12 directory cache, C13 HTTP/command caches, C14 cleaning)
-// and their helper binary share: the description of one cache operation (Spec), construction of the real
-// cache from it, output-set generation and the comparison of restored outputs with the model.
+// share: the description of one cache operation (Spec, from cspec, which the helper binary uses too),
+// output-set generation and the comparison of restored outputs with the model.
 package cx
 
 import (
-	"encoding/hex"
-	"encoding/json"
 	"fmt"
 	"os"
 	"os/exec"
@@ -13,128 +11,23 @@ import (
 	"sort"
 	"strings"
 
-	gologging "gopkg.in/op/go-logging.v1"
 	"pgregory.net/rapid"
 
-	"github.com/thought-machine/please/src/cache"
-	"github.com/thought-machine/please/src/cli"
-	"github.com/thought-machine/please/src/core"
-
+	"verifharness/c12/cspec"
 	"verifharness/lib"
 )
 
-// Spec describes a cache configuration plus one operation on one target. It is what the helper binary
-// receives (as a JSON file) and what the in-process code uses, so both run exactly the same calls.
-type Spec struct {
-	Repo        string   // repository root: the process chdir()s here and core.RepoRoot is set to it
-	CacheDir    string   `json:",omitempty"` // directory cache ("" = disabled)
-	Compress    bool     `json:",omitempty"`
-	HTTPURL     string   `json:",omitempty"`
-	StoreCmd    string   `json:",omitempty"`
-	RetrieveCmd string   `json:",omitempty"`
-	Pkg         string   // package of the target
-	Name        string   // name of the target
-	Key         string   // hex of the cache key
-	Outs        []string // output paths relative to the target's out dir
-	Op          string   `json:",omitempty"` // helper only: "setup" | "store" | "retrieve"
-	Repeat      int      `json:",omitempty"` // helper only: repeat the operation this many times (default 1)
-}
+// Spec describes a cache configuration plus one operation on one target (see cspec).
+type Spec = cspec.Spec
 
-// Quiet silences plz's logging (it would otherwise write every debug line to stderr).
-func Quiet() {
-	if os.Getenv("VERIF_PLZ_LOG") == "" {
-		gologging.SetLevel(gologging.CRITICAL, "plz")
-	}
-}
+// Marker is the path named by the helper's marker syscall.
+const Marker = cspec.Marker
 
-// KeyBytes decodes the key.
-func (s Spec) KeyBytes() []byte {
-	b, err := hex.DecodeString(s.Key)
-	if err != nil {
-		panic(err)
-	}
-	return b
-}
-
-// Target builds the target the operation is about.
-func (s Spec) Target() *core.BuildTarget {
-	t := core.NewBuildTarget(core.NewBuildLabel(s.Pkg, s.Name))
-	for _, o := range s.Outs {
-		t.AddOutput(o)
-	}
-	return t
-}
-
-// Config is the plz configuration the spec stands for (everything else is the default).
-func (s Spec) Config() *core.Configuration {
-	config := core.DefaultConfiguration()
-	config.Cache.Dir = s.CacheDir
-	config.Cache.DirClean = false // cleaning is called explicitly (C14)
-	config.Cache.DirCompress = s.Compress
-	config.Cache.Workers = 0 // synchronous: Store returns when the store has been attempted
-	config.Cache.HTTPRetry = 0
-	config.Cache.HTTPWriteable = true
-	config.Cache.HTTPURL = cli.URL(s.HTTPURL)
-	config.Cache.StoreCommand = s.StoreCmd
-	config.Cache.RetrieveCommand = s.RetrieveCmd
-	return config
-}
-
-// Enter makes the process look like plz running in s.Repo.
-func (s Spec) Enter() error {
-	Quiet()
-	if err := os.MkdirAll(s.Repo, 0o755); err != nil {
-		return err
-	}
-	if err := os.Chdir(s.Repo); err != nil {
-		return err
-	}
-	core.RepoRoot = s.Repo
-	return nil
-}
-
-// NewCache enters the repo and constructs the cache through the real factory.
-func (s Spec) NewCache() (core.Cache, error) {
-	if err := s.Enter(); err != nil {
-		return nil, err
-	}
-	return cache.NewCache(&core.BuildState{Config: s.Config()}), nil
-}
-
-// Store performs the store in this process with a fresh cache object.
-func (s Spec) Store() error {
-	c, err := s.NewCache()
-	if err != nil {
-		return err
-	}
-	c.Store(s.Target(), s.KeyBytes(), s.Outs)
-	return nil
-}
-
-// Retrieve performs the retrieve in this process with a fresh cache object (nothing of an earlier
-// store's in-memory state is reused, like a later plz run).
-func (s Spec) Retrieve() (bool, error) {
-	c, err := s.NewCache()
-	if err != nil {
-		return false, err
-	}
-	return c.Retrieve(s.Target(), s.KeyBytes(), s.Outs), nil
-}
-
-// OutDir is the absolute out dir of the target.
-func (s Spec) OutDir() string { return filepath.Join(s.Repo, "plz-out", "gen", s.Pkg) }
-
-// WipeOuts removes the package's out dir (what plz does before building; it also breaks the hard links
-// between plz-out and the cache so that writing new outputs cannot change stored ones).
-func (s Spec) WipeOuts() error {
-	if err := os.RemoveAll(s.OutDir()); err != nil {
-		return err
-	}
-	return os.MkdirAll(s.OutDir(), 0o755)
-}
+// Quiet silences plz's logging.
+func Quiet() { cspec.Quiet() }
 
 // WriteOuts wipes the out dir and materialises the given output set.
-func (s Spec) WriteOuts(outs []*lib.Node) error {
+func WriteOuts(s Spec, outs []*lib.Node) error {
 	if err := s.WipeOuts(); err != nil {
 		return err
 	}
@@ -179,16 +72,7 @@ func OutNames(outs []*lib.Node) []string {
 }
 
 // SnapshotOuts reads the out dir.
-func (s Spec) SnapshotOuts() ([]lib.Entry, error) { return lib.Snapshot(s.OutDir()) }
-
-// WriteSpec writes the spec where the helper can read it.
-func (s Spec) WriteSpec(path string) error {
-	b, err := json.Marshal(s)
-	if err != nil {
-		return err
-	}
-	return os.WriteFile(path, b, 0o644)
-}
+func SnapshotOuts(s Spec) ([]lib.Entry, error) { return lib.Snapshot(s.OutDir()) }
 
 // Helper returns the path of the helper binary built by the driver (listed under "helpers" in the check's
 // json). When run outside the driver (go test by hand) it is built on demand.
@@ -210,10 +94,6 @@ func Helper() (string, error) {
 func HelperEnv() []string {
 	return []string{"GOMAXPROCS=1", "PATH=" + os.Getenv("PATH"), "HOME=" + os.Getenv("HOME"), "VERIF_PLZ_LOG=" + os.Getenv("VERIF_PLZ_LOG")}
 }
-
-// Marker is the path of the no-op syscall (a failing mkdirat) the helper issues immediately before the
-// operation, so that a trace can be split into set-up and operation without any assumption about set-up.
-const Marker = "/dev/null/VERIF-OPERATION-BEGINS"
 
 // ---- output-set generator ------------------------------------------------------------------------
 
